@@ -116,6 +116,8 @@ class GrammarAI:
         self.outer_consumed = []
         self.cur_site = None
         self.callargs = defaultdict(set)
+        self.token_parent = defaultdict(set)  # (grammar function, kind mask of a single consumed token) -> {"passed","local","none"}: whose marker is innermost when it is consumed
+        self.edge_first = defaultdict(int)    # (caller, callee, bb) -> union of the kind sets of the next token when the call is made
         self.cm_kinds = defaultdict(int)      # (caller, callee) -> union of node-kind masks of CompletedMarker arguments (-1: unknown)
         self.runs_by_fn = defaultdict(int)
         self.rpo_cache = {}
@@ -613,6 +615,10 @@ class GrammarAI:
             self.fact("EOFSAFE", body.npath, n)
         if (eaten & self.ERROR) and not st.err:
             st.ate_err = True
+        # which node receives the token: the innermost open marker is one handed in by the caller or a local one
+        top = st.ms[-1] if st.ms else None
+        cls = "none" if top is None else ("passed" if isinstance(top, tuple) and top and top[0] == "in" else "local")
+        self.token_parent[(key[0], w[0] if n == 1 else -1)].add(cls)
         if n < WIN:
             st.win = tuple(w[n:WIN]) + (self.alphabet,) * n + (w[4] >> n, w[5] >> n)
         else:
@@ -1363,6 +1369,7 @@ class GrammarAI:
         # inside the callee; keeping them would multiply contexts by the number of precedence levels)
         if bb is not None:
             self.callargs[(body.npath, cal, bb)].add(tuple(a for a in cargs if a[0] in ("i", "k", "b", "top")))
+            self.edge_first[(body.npath, cal, bb)] |= st.win[0]       # first-token kinds with which this call site is reached
             # node kinds of completed markers handed to the callee (e.g. the operand a postfix form is applied to)
             for a in cargs:
                 if a[0] == "agg" and a[1].endswith("CompletedMarker") and len(a[3]) == 2:
